@@ -187,6 +187,8 @@ def run_property(modname, tier, seed, replay=None, procs=None):
             else:
                 new_viol.append(v)
         for d in r.get('disagreements', []):
+            if not isinstance(d, dict):
+                d = {'component': 'correspondence', 'detail': str(d)}
             d['cid'] = r['cid']
             d.setdefault('scenario', r.get('scenario'))
             disagreements.append(d)
